@@ -97,6 +97,16 @@ class FnL:
         while changed:
             changed = False
             self.region_stmts = [st for st in stmts_of(node) if isinstance(st, (ast.If, ast.While)) and has_L_atom(st.test, self.l_locals)]
+            # guard-clause form of a region: `if <L is None>: return` directly in the function body, in a function that
+            # returns nothing - the rest of the body is what only runs with logging on (same as `if <L is not None>: rest`)
+            self.tail_regions = []
+            for i, st in enumerate(node.body):
+                if st in self.region_stmts and isinstance(st, ast.If) and not st.orelse and len(st.body) == 1 and isinstance(st.body[0], ast.Return) and st.body[0].value is None:
+                    tail = node.body[i + 1 :]
+                    no_value = all(r.value is None for r in stmts_of(node) if isinstance(r, ast.Return))
+                    only_L = all(has_L_atom(x, self.l_locals) for x in ([st.test] if not isinstance(st.test, ast.BoolOp) else st.test.values))
+                    if tail and no_value and only_L:
+                        self.tail_regions.append((st, tail))
             for st in stmts_of(node):
                 tgts = []
                 val = None
@@ -125,10 +135,17 @@ class FnL:
                                 changed = True
 
     def in_region(self, n: ast.AST) -> bool:
-        return any(inside(n, st) and not inside(n, st.test) for st in self.region_stmts)
+        return any(inside(n, st) and not inside(n, st.test) for st in self.region_stmts) or any(inside(n, t) for _, tail in self.tail_regions for t in tail)
 
     def regions_of(self, n):
-        return [st for st in self.region_stmts if inside(n, st) and not inside(n, st.test)]
+        return [st for st in self.region_stmts if inside(n, st) and not inside(n, st.test)] + [st for st, tail in self.tail_regions if any(inside(n, t) for t in tail)]
+
+    def region_body(self, st) -> list:
+        """statements that only run when logging is on (or only when it is off) because of the test of `st`"""
+        for h, tail in self.tail_regions:
+            if h is st:
+                return list(tail)
+        return st.body + st.orelse
 
 
 def run(repo, chk):
@@ -216,7 +233,7 @@ def run(repo, chk):
         for st in region_nodes:
             if any(inside(st, o) and not inside(st, o.test) for o in region_nodes if o is not st):
                 continue  # nested region: covered by the outer one
-            bodies.append((st, st.body + st.orelse))
+            bodies.append((st, fl.region_body(st)))
         if is_lf:
             bodies = [(fr.node, fr.node.body)]
         for holder, body in bodies:
@@ -496,7 +513,7 @@ def r4(repo, chk, prog, facts, frs, l_class_funcs, l_funcs):
         fl = facts[id(fr.node)]
         tops = [st for st in fl.region_stmts if not any(inside(st, o) and not inside(st, o.test) for o in fl.region_stmts if o is not st)]
         for st in tops:
-            items = esc._block(fr, st.body + st.orelse)
+            items = esc._block(fr, fl.region_body(st))
             # items of callees that the C05/C16 boundaries already discharge through call-site preconditions keep `pre`
             bad = [it for it in items if not _discharged_here(esc, fr, it)]
             n += 1
